@@ -242,6 +242,88 @@ func runBigFields(r *engine.Run) {
 			}
 		}
 	}
+	// cancelling pairs: a large field and the opposite amount in a finer unit. In IEEE arithmetic
+	// MakeTime(0, 0, 1e18, -1e21) is exactly 0, so the result is an ordinary in-range time value.
+	unit := []float64{0, 0, 86400000, 3600000, 60000, 1000, 1}
+	for opi := 0; opi < 2; opi++ {
+		for p := 2; p < 7; p++ {
+			for q := p + 1; q < 7; q++ {
+				for xi, x := range big {
+					y := -x * (unit[p] / unit[q])
+					if math.IsInf(y, 0) {
+						continue
+					}
+					vals := append([]float64(nil), bigBases[0]...)
+					vals[p], vals[q] = x, y
+					tuple(fmt.Sprintf("c%d.%d.%d.%d", opi, p, q, xi), opi, vals)
+				}
+			}
+		}
+	}
+	for ri, t0 := range bigReceivers[:2] {
+		for _, s := range []date.Setter{date.SetUTCSeconds, date.SetUTCMinutes, date.SetUTCHours} {
+			max := date.SetterMaxArgs[s]
+			for p := 0; p < max; p++ {
+				for q := p + 1; q < max; q++ {
+					for xi, x := range big {
+						// argument i of setter s is field 7-max+i of the tuple
+						y := -x * (unit[7-max+p] / unit[7-max+q])
+						if math.IsInf(y, 0) {
+							continue
+						}
+						key := fmt.Sprintf("k%d.%d.%d.%d.%d", ri, int(s), p, q, xi)
+						if !mine(r, key) {
+							continue
+						}
+						vals := make([]float64, q+1)
+						vals[p], vals[q] = x, y
+						call := []interface{}{t0, 0, int(s), len(vals)}
+						srcs := make([]string, len(vals))
+						for i := 0; i < 4; i++ {
+							if i < len(vals) {
+								call = append(call, vals[i])
+								srcs[i] = bigSrc(vals[i])
+							} else {
+								call = append(call, otto.UndefinedValue())
+							}
+						}
+						render := func(p float64) string {
+							return num(t0) + "|" + num(p) + "," + num(p) + "," + num(p) + "|" + fieldsString(p)
+						}
+						post := date.Apply(es5, s, t0, toArgs(vals))
+						exp := render(post)
+						input := fmt.Sprintf("d = new Date(%s); d.%s(%s)", num(t0), date.SetterNames[s], strings.Join(srcs, ", "))
+						r.Begin(key)
+						obs := d.call(func(m *machine) otto.Value { return m.hist }, call...)
+						r.End()
+						r.Eval(!math.IsNaN(post))
+						r.Outcome(obs)
+						if r.WantSample() && !math.IsNaN(post) && math.Abs(x) >= 1e18 {
+							r.Sample(input + " => " + obs)
+						}
+						if obs == exp {
+							continue
+						}
+						aux := altAux("A", exp, func(string) string {
+							// A: arguments saturated to the int64 range before the (IEEE) composition
+							sat := make([]float64, len(vals))
+							hit := false
+							for i, v := range vals {
+								sat[i] = math.Max(math.Min(v, math.MaxInt64), math.MinInt64)
+								hit = hit || sat[i] != v
+							}
+							if !hit {
+								return exp
+							}
+							return render(date.Apply(es5, s, t0, toArgs(sat)))
+						})
+						r.Mismatch(engine.Mismatch{Key: key, Input: input, Expected: exp, Observed: obs, Aux: aux})
+					}
+				}
+			}
+		}
+	}
+	r.Bound("cancelling_pairs", "field p = x, finer field q = -x * unit(p)/unit(q): all pairs of day..ms in Date.UTC / new Date, all argument pairs of setUTCSeconds/Minutes/Hours")
 	r.Bound("values", fmt.Sprintf("%d: +-{1e7..1e22, 2^31-1..2^31+1, 2^32-1..2^32+1, 2^53-1, 2^53, 2^53+2, 2^63 and neighbours, 2^64, 9.2e12..9.3e12, 8.64e15-1..8.64e15+1, 1e300, MAX_VALUE}", len(big)))
 	r.Bound("tuples", "2 bases x {Date.UTC, new Date} x 7 positions x {full, shortest} arity; base 1970: second field from {-1e8, 1e8, -8.64e15, 8.64e15, -300000, 300000}")
 	r.Bound("setters", "3 receivers x every argument position of the 8 setters (earlier arguments 0)")
